@@ -12,7 +12,7 @@ EXPLANATION = ('HMesh.refine is verified for every number of levels, every state
                'F-inv of HSpace.refine (f active on level l <=> supp f inside region l and not inside region l+1; deactivated <=> inside region l+1) '
                'over an uninterpreted function sort with a support relation: _functions_to_deactivate computes exactly the marked active functions '
                'without an active cell, and the activation loop re-establishes F-inv on every level, using HMesh.refine and '
-               '_functions_to_deactivate through their contracts. The admissibility marking pass is closed under the neighbourhood operator on '
+               '_functions_to_deactivate through their contracts; appending levels (_ensure_levels/_add_level/add_level) preserves all invariants. The admissibility marking pass is closed under the neighbourhood operator on '
                'every level and keeps the marks inside the active cells (contract of _cell_neighborhood), which is HMesh.refine\'s precondition. '
                'Linear independence, THB partition of unity/non-negativity, HB<->THB transforms, the disparity bound itself, incidence matrix and '
                'container kinds are checked on the real code over exhaustive short histories and random longer ones (bounded), which also '
@@ -25,8 +25,10 @@ ASSUMPTIONS = ['cells are an uninterpreted sort with parent : Cell -> Cell; cell
                'over the SAME relation) given the per-axis lemma proved for _compute_supported_functions (cell k carries exactly the functions '
                'j with lo_j <= k < hi_j, for monotone range tables); that TPMesh.__init__ builds suppfunc from meshsupp with that function and '
                'that mesh_support_idx_all yields monotone in-range tables are not under contract (bounded tier)',
-               'marked is a total map level -> set (absent key = empty set); the marks passed by the user are active cells; levels already exist '
-               '(ensure_levels no-op)',
+               'marked is a total map level -> set (absent key = empty set); the marks passed by the user are active cells; in the refine contracts '
+               'the levels already exist (precondition) -- that _ensure_levels establishes this while preserving every invariant (I1, I2, I3 = no '
+               'deactivated cells on the finest level, F-inv, list lengths) is proved separately (HMesh.add_level, HSpace._add_level, '
+               'HSpace._ensure_levels; the refined TPMesh and the prolongators appended there are outside the modelled state)',
                'HSpace.refine is verified in two parts that meet at the statement after the marking block: the marking-pass contract (stops there) and '
                'the activation contract (marking block replaced by "marked is the dictionary after the pass")',
                'tiling from I1+I2+Omega_0: induction over levels, argued in DESIGN.md (not mechanised)',
